@@ -24,6 +24,14 @@ CHECKS = {
                 technique="symbolic execution of compiled Fex + SMT: element- and charge-weighted sums of ydot are identically zero for enumerated balanced networks",
                 text="For exhaustively enumerated balanced reactions over four molecule pools (ions, both electron spellings, o/p labels, isotopologues, ice/gas pairs) z3 shows sum_s c_e(s)*ydot_s != 0 unsat for each element and for charge, for all y and k, on all back-ends.",
                 note="As C01. Element counts and charges of species are taken from the generator's own Species objects (their correctness is C08's subject)."),
+    "C05": dict(engine=E1, cat="translation_validation", sec="6 C05",
+                technique="symbolic execution of the compiled EvalRates (floating literals lifted to exact-valued externs so nothing is constant-folded) + SMT equivalence with each database's rate law, libm as uninterpreted functions; native libm replay",
+                text="For reaction files written by independent format encoders (KIDA, UMIST, Leeds, UCLCHEM, native) with one reaction per type code x sign class of (alpha,beta,gamma) x literal shape, z3 shows 'exists T, Av, zeta, omega, G0...: k[i] assigned and != law' unsat; an emitted rate expression the real compiler rejects (operator fusion) is a violation.",
+                note="Coefficients are enumerated (sign classes, literal shapes), physical parameters are symbolic. libm as UFs with exact values at 0/1. Self-shielding special cases and Leeds types 5/15-19 (emitted as 0.0 by design) are outside the claim."),
+    "C06": dict(engine=E1, cat="translation_validation", sec="6 C06",
+                technique="symbolic execution of the compiled EvalRates with sentinel-initialised k: the store guard of every k[i] is extracted and SMT-compared with Tmin<=T<Tmax for all T; callers' zero-initialisation read from the compiled Fex/Jac",
+                text="For every window shape (none, lower, upper, both, zero, negative, equal bounds; KROME spellings .LE. > d-exponents NONE) in all six formats, z3 shows for all Tgas that k[i] is assigned iff the window predicate holds; adjacent piecewise windows have exactly one active member at every T including boundaries; Fex/Jac hand EvalRates a zero-initialised array.",
+                note="Temperature is a real-valued symbol (boundaries are ordinary values). Reactions overridden by a rate modifier are excluded by design (C13)."),
     "C19": dict(engine=E1, cat="model_checking", sec="6 C19",
                 technique="bounded model checking of the compiled Solve/HandleError IR with a nondeterministic integrator stub (symbolic flags and partial times, merged states) + one SMT-discharged inductive step per recovery level (loop back edge cut); scripted-mock native replay",
                 text="Every fault sequence over the recovery ladder is covered by (base) Solve up to HandleError establishes the invariant, (step) from any invariant state one level either returns SUCCESS with exactly y0+dt, returns FAIL, or re-establishes the invariant, with every flag an arbitrary integer and every partial time an arbitrary real; plus end-to-end monolithic queries and concrete-flag/symbolic-time scripts through all five levels; odeint Observer and Solve are decided on their compiled IR.",
